@@ -1,7 +1,9 @@
 import GoflowModel.Lemmas.EngineSteps
+import GoflowModel.Lemmas.EngineTerm
 import GoflowModel.Engine.Truncate
 import GoflowModel.Gen.Engine
 import GoflowModel.Props.C10
+import GoflowModel.Props.C01
 /-!
 # C05 — Sprints terminate within the configured limits
 
@@ -12,11 +14,15 @@ returns a Go error); a resume attempted when the number of waits has reached
 their limits for **every** limit value (the `none` = panic case of `TruncateEllipsis` is
 unreachable from `templateTruncate`).
 
-Termination itself: the model's loop takes fuel; `fuel_suffices_partial` below states the
-claim that the fuel `fuelFor` always suffices.  It is not proved yet — the driver reports
-`fuel` as a result class, and the correspondence run counts how often it occurs (never, on
-every history generated so far); the implementation's own termination is watched by the
-monitors under a wall-clock budget.
+Termination itself: the model's loop takes fuel, and `start_terminates` / `resume_terminates`
+prove that the fuel `fuelFor` always suffices — for every graph (cycles, mutual and terminal
+enters, empty and missing flows), every oracle and every option value, including zero and
+negative step limits.  The measure: visiting a node uses up one of the `MaxStepsPerSprint`
+steps; finishing a run moves to a run created earlier; past the limit only the unwinding of the
+failed run's ancestors is left.  `start_limit_fails` / `resume_limit_fails`: a call in which some
+iteration wants to go on but has used up its steps can only end with a failed session whose
+sprint holds a failure event — never with a Go error caused by the limit, never by hanging.
+The implementation's own termination is watched by the monitors under a wall-clock budget.
 -/
 namespace GoflowModel.Props.C05
 open GoflowModel.Engine GoflowModel.Truncate
@@ -95,10 +101,58 @@ theorem quick_reply_bounded (s : List Char) :
 every limit — e.g. `MaxTemplateChars = 2` panicked on a three-character text -/
 theorem ellipsis_small_limit_witness : truncateEllipsis ['a', 'b', 'c'] 2 = none := by decide
 
-/-- the full termination claim (not yet proved; see the header) -/
-def fuel_suffices_partial : Prop :=
-  ∀ (a : Assets) (o : Opts) (orc : Oracle) (s : Session) (k : ResumeKind),
-    start a o orc ≠ .outOfFuel ∧ resume a o orc s k ≠ .outOfFuel
+/-- A start terminates: the fuel the model gives its loop always suffices. -/
+theorem start_terminates (a : Assets) (o : Opts) (orc : Oracle) : start a o orc ≠ .outOfFuel :=
+  Engine.start_terminates a o orc
+
+/-- A resume of any session the engine can have handed back terminates. -/
+theorem resume_terminates (a : Assets) (o : Opts) (orc : Oracle) (s : Session) (k : ResumeKind)
+    (h : C01.Reachable a o s) : resume a o orc s k ≠ .outOfFuel := by
+  have hw := C01.reachable_wellformed a o s h
+  exact Engine.resume_terminates a o orc s k hw.2.1 hw.2.2 (C01.reachable_chain a o s h).1
+
+/-- whether a start hits the step limit: some iteration of its loop has a node to go to and no
+step left -/
+def startLoop (orc : Oracle) : Loop :=
+  { st := { s := { emptySession with pushed := some ⟨orc.initFlow, false⟩ },
+            sp := (logSprintOnly ⟨emptySession, []⟩ orc.initEvents).sp },
+    cur := none, exit := none, step := none, n := 0 }
+
+def startHitsLimit (a : Assets) (o : Opts) (orc : Oracle) : Bool :=
+  !orc.initErr && hitsLimit a o orc (fuelFor o emptySession) (startLoop orc)
+
+/-- Hitting the limit ends the session as failed, with a failure event in the sprint. -/
+theorem start_limit_fails (a : Assets) (o : Opts) (orc : Oracle) (st : St)
+    (hh : startHitsLimit a o orc = true) (h : start a o orc = .ok st) :
+    st.s.status = .failed ∧ ∃ se ∈ st.sp, se.ev.kind = failureKind := by
+  unfold startHitsLimit at hh
+  simp only [Bool.and_eq_true, Bool.not_eq_true'] at hh
+  unfold start at h
+  simp only [hh.1, Bool.false_eq_true, if_false] at h
+  refine loop_hitsLimit a o orc 0 _ (startLoop orc) ?_ ?_ (LT_init o (startLoop orc) rfl (fun _ => rfl)) hh.2 st h
+  · refine ⟨?_, ?_, by simp [startLoop]⟩
+    · unfold SessOK; intro i x hx; simp [startLoop, emptySession] at hx
+    · simp [startLoop, emptySession]
+  · refine ⟨?_, by simp [startLoop]⟩
+    simp [PBC, parents, startLoop, emptySession]
+
+/-- The same for a resume of any session the engine can have handed back: `resumeLoop` is the
+loop the resume enters once the resume has been accepted and applied. -/
+theorem resume_limit_fails (a : Assets) (o : Opts) (orc : Oracle) (s : Session) (k : ResumeKind) (st : St)
+    (hr : C01.Reachable a o s) (fuel : Nat) (l : Loop) (hl : resumeLoop a o orc s k = some (fuel, l))
+    (hh : hitsLimit a o orc fuel l = true) (h : resume a o orc s k = .ok st) :
+    st.s.status = .failed ∧ ∃ se ∈ st.sp, se.ev.kind = failureKind := by
+  have hw := C01.reachable_wellformed a o s hr
+  obtain ⟨h1, h2, h3, _⟩ := resumeLoop_inv a o orc s k fuel l hw.2.1 hw.2.2 (C01.reachable_chain a o s hr).1 hl
+  rw [resume_eq_loop a o orc s k fuel l hl] at h
+  exact loop_hitsLimit a o orc _ fuel l h1 h2 h3 hh st h
+
+/-- non-vacuity: with `MaxStepsPerSprint = 1` the self-looping node hits the limit, and the
+session ends failed -/
+example : startHitsLimit [some ⟨[⟨[some 0], false, none⟩]⟩] ⟨1, 500⟩
+    { initEvents := [], initErr := false, initFlow := 0, applyBase := [], applyGroups := [],
+      visit := fun _ _ => some ⟨[], none, .done, false, .exit (some 0)⟩, late := fun _ _ => none } = true := by
+  decide
 
 /-- tie to the source: the option defaults the model assumes are the engine's -/
 theorem option_defaults_as_modelled :
